@@ -218,7 +218,7 @@ namespace verif {
         if (site >= pv::site_count) return;
         auto& c = tc();
         bump(c.hits[site]);
-        bump(c.sub[site][b & 3]);
+        bump(c.sub[site][(site == pv::join_between ? a : b) & 3]);
         if (site == pv::sched_steal || (site == pv::tq_get_next && a == 1)) bump(c.steals);
         if (site == pv::tq_add_new && a == 1) bump(c.staged_steals);
         if (site == pv::sched_after_store) bump(c.stored_state[b & 7]);
@@ -572,6 +572,9 @@ namespace verif {
                 (long) pool.get_thread_count_active(std::size_t(-1), false),
                 (long) pool.get_thread_count_staged(std::size_t(-1), false),
                 (long) pool.get_thread_count_suspended(std::size_t(-1), false));
+            s += "per-worker pending:";
+            for (std::size_t w = 0; w < pool.get_os_thread_count() && w < 32; ++w) s += sf(" %ld", (long) pool.get_thread_count_pending(w, false));
+            s += " ";
         }
         return s;
     }
